@@ -689,6 +689,7 @@ def main(run):
     return (
         "all ordered histories (depth 2; depth 3 inside colliding groups / small families) over request alphabets with colliding "
         "attributes: make_operator/field operators for 15 BC kinds on equal grids of different instance/class/coordinate system, "
-        "PDE rates/rhs/solve for equations differing only in BCs, bc_ops, constants or backend, expressions, and a stateful "
-        "family (interpolate / link into collections / change data); states = histories, transitions = requests executed"
+        "PDE rates/rhs/solve for equations differing only in BCs, bc_ops, constants or backend, expressions, a stateful "
+        "family (interpolate / link into collections / change data), user-defined operators and simulations sharing one "
+        "interrupt/tracker object; states = histories, transitions = requests executed"
     )
